@@ -322,6 +322,31 @@ class LoopsMixin:
             raise Unsupported("nested dict comprehension", node)
         gen = node.generators[0]
         it = gen.iter
+        if isinstance(it, (ast.List, ast.Tuple)) and all(isinstance(e, ast.Constant) for e in it.elts) and isinstance(gen.target, ast.Name) \
+                and isinstance(node.key, ast.Name) and node.key.id == gen.target.id and not gen.ifs:
+            # {k: f(k) for k in ['a', 'b', ...]}: unrolled over the literal keys
+            states = [(st, [])]
+            for e in it.elts:
+                nxt = []
+                for (s, vals) in states:
+                    kv = self.ev1(e, s)
+                    for (s2, v) in self.ev(node.value, s.bind(gen.target.id, kv)):
+                        s2, v = self.materialize(s2, v)
+                        nxt.append((s2.clone(env=s.env), vals + [(kv, v)]))
+                states = nxt
+            outs = []
+            for (s, kvs) in states:
+                keys = empty_keys()
+                vals = z3.K(Val, Z.NONE)
+                size = z3.IntVal(0)
+                for kv, v in kvs:
+                    kk = self.nk(kv)
+                    size = size + z3.If(z3.Select(keys, kk), 0, 1)
+                    keys = z3.Store(keys, kk, z3.BoolVal(True))
+                    vals = z3.Store(vals, kk, v)
+                h2, r = s.heap.new_dict(keys, vals, z3.simplify(size))
+                outs.append((s.with_heap(h2), Z.mk_ref(r)))
+            return outs
         if not (isinstance(it, ast.Call) and isinstance(it.func, ast.Attribute) and it.func.attr == 'items' and not it.args
                 and isinstance(gen.target, ast.Tuple) and len(gen.target.elts) == 2
                 and all(isinstance(e, ast.Name) for e in gen.target.elts)
